@@ -49,6 +49,19 @@ theorem labelled_anchor_wins (next : Bool) (A B : Facts)
     ∃ sa sb, verdict next A = .cand sa ∧ verdict next B = .cand sb ∧ sa ≥ sb + 41 ∧ (A.inFolder = true → sa ≥ 50) :=
   labelled_beats_numbered next A B hpA hqA hpB hqB hctx hA hAn hAd hB
 
+/-- `getPageDiff` slices both strings at `commonLen`, which never exceeds either length: the two slice
+expressions of the function are in range for every pair of strings and every `skip` -/
+theorem page_diff_slices_in_range (a b : List UInt8) (skip : Nat) :
+    commonLen a b skip ≤ a.length ∧ commonLen a b skip ≤ b.length := by
+  unfold commonLen
+  simp only []
+  split
+  · rename_i i hi
+    have := List.mem_of_find?_eq_some hi
+    simp only [List.mem_range] at this
+    omega
+  · omega
+
 /-! ### page-number links (`getPageInfoAndText`) -/
 
 /-- `getPageInfoAndText` and the walk over the neighbouring leaves as they stand -/
